@@ -709,6 +709,41 @@ func c10ProtoCode(c *Ctx) {
 			}
 		})
 		if inv == nil {
+			// ... or in a helper of the package that only this function calls and that returns InvokeRpc's results as
+			// they are (g.invoke(method, message, md)): the call of the helper stands for the invocation
+			EachInstr(fn, func(in ssa.Instruction) {
+				cl, ok := in.(*ssa.Call)
+				if !ok || cl.Call.StaticCallee() == nil || PkgOf(cl.Call.StaticCallee()) != PkgOf(fn) || SoleCallSite(cl.Call.StaticCallee()) != in {
+					return
+				}
+				h := cl.Call.StaticCallee()
+				var rpc *ssa.Call
+				EachInstr(h, func(i2 ssa.Instruction) {
+					if c2, ok := i2.(*ssa.Call); ok && MatchCC(&c2.Call, Spec{"github.com/jhump/protoreflect/dynamic/grpcdynamic", "Stub", "InvokeRpc"}) {
+						rpc = c2
+					}
+				})
+				if rpc == nil {
+					return
+				}
+				asIs := true
+				EachInstr(h, func(i2 ssa.Instruction) {
+					ret, ok := i2.(*ssa.Return)
+					if !ok || ret.Block() == h.Recover {
+						return
+					}
+					for i, res := range ret.Results {
+						if !DerivesOnly(res, false, IsResultOf(rpc, i)) {
+							asIs = false
+						}
+					}
+				})
+				if asIs {
+					inv = cl
+				}
+			})
+		}
+		if inv == nil {
 			c.Anchor("O10.3", "Stub.InvokeRpc in "+key)
 			continue
 		}
